@@ -33,7 +33,7 @@ type tierCfg struct {
 
 func cfg(tier string) tierCfg {
 	if tier == "thorough" {
-		return tierCfg{items: 120000, events: 40, budget: 400000}
+		return tierCfg{items: 600000, events: 40, budget: 400000}
 	}
 	return tierCfg{items: 2400, events: 40, budget: 200000}
 }
